@@ -38,7 +38,8 @@ ASSUMPTIONS = [
 ]
 REQUIRED_LABELS = {t: ["iteration:valid", "iteration:invalid", "hash:invalid", "sig:malformed",
                        "authorized", "never-authorized", "device-error", "sigs>=2",
-                       "signapp:key", "signapp:manual", "signapp:eth", "iter:65535", "iter:0"]
+                       "signapp:key", "signapp:manual", "signapp:eth", "iter:65535", "iter:0",
+                       "duplicate-signature", "malformed-file"]
                    for t in ("quick", "thorough")}
 h32 = st.binary(min_size=32, max_size=32)
 BAD_SIGS = ["", "zz", "30", "3006020101", "3006020101020101ff", "3106020101020101",
@@ -55,9 +56,12 @@ def iterations(draw):
         return {"v": str(n), "ok": True, "n": n}
     if k == 5:
         return {"v": hex(n), "ok": True, "n": n}
-    bad = draw(st.sampled_from([-1, 65536, 2 ** 32, 1.0, 1.5, True, False, None, "abc", "",
-                                "-1", "65536", "0x10000", [1], {"a": 1}, "0xzz"]))
-    return {"v": bad, "ok": False, "n": None}
+    bad = draw(st.sampled_from([-1, 65536, 2 ** 32, 1.5, None, "abc", "",
+                                "-1", "65536", "0x10000", [1], {"a": 1}, "0xzz",
+                                1.0, True, False]))
+    # integral floats and booleans are numbers 0..65535 to some readers and malformed to others
+    undecided = type(bad) in (float, bool) and bad == int(bad)
+    return {"v": bad, "ok": None if undecided else False, "n": None}
 
 
 @st.composite
@@ -77,8 +81,12 @@ def cases(draw, tier):
     nsig = draw(st.integers(0, 10))
     sigs = []
     for _ in range(nsig):
-        if draw(st.integers(0, 11)) == 0:
+        k = draw(st.integers(0, 11))
+        if k == 0:
             sigs.append({"bad": draw(st.sampled_from(BAD_SIGS))})
+        elif k <= 2 and sigs:
+            # the very same signature once more (an authorizer who signed twice)
+            sigs.append({"dup": draw(st.integers(0, len(sigs) - 1))})
         else:
             sigs.append({"key": draw(st.integers(1, 2 ** 200))})
     return {"hash": hs, "hash_ok": hash_ok, "hash_bytes": h, "iteration": draw(iterations()),
@@ -120,12 +128,18 @@ def run_case(c):
     try:
         sv = SignerVersion(c["hash"], it["v"])
         err = None
-    except ValueError as e:
+    except Exception as e:      # noqa - how a refusal is signalled is not prescribed
         err = e
     valid = c["hash_ok"] and it["ok"]
     labels.append("iteration:valid" if it["ok"] else "iteration:invalid")
     if not c["hash_ok"]:
         labels.append("hash:invalid")
+    if it["ok"] is None and c["hash_ok"]:
+        labels.append("iteration:undecided")
+        return Out(labels, False)
+    if valid and sv is None and c["hash"] != c["hash"].lower():
+        labels.append("non-lowercase-hash-refused")     # the docs show lowercase only
+        return Out(labels, False)
     if valid and sv is None:
         raise Violation("valid-signer-version-refused", "hash %r iteration %r: %s" % (
             c["hash"], it["v"], err))
@@ -155,11 +169,19 @@ def run_case(c):
     for s in c["sigs"]:
         if "bad" in s:
             labels.append("sig:malformed")
+            at = len(good) // 2 if len(good) % 2 else len(good)
             try:
-                SignerAuthorization(sv, good + [s["bad"]])
-                raise Violation("malformed-signature-accepted", repr(s["bad"]))
-            except (ValueError, TypeError):
-                pass
+                SignerAuthorization(sv, good[:at] + [s["bad"]] + good[at:])
+            except Violation:
+                raise
+            except Exception:      # noqa - refused
+                continue
+            raise Violation("malformed-signature-accepted", repr(s["bad"]))
+        if "dup" in s:
+            src = [x for x in c["sigs"][:c["sigs"].index(s)] if "bad" not in x]
+            if good:
+                good.append(good[s["dup"] % len(good)])
+                labels.append("duplicate-signature")
             continue
         sk = certs.sk_from_int(s["key"])
         sg = certs.sign(sk, b"x")     # any valid DER signature is acceptable content
@@ -347,6 +369,82 @@ def run_case(c):
     return Out(labels, len(good) >= 2 or n in (0, 65535))
 
 
+# ---------------------------------------------------------------- malformed authorization files
+
+def malformed_files(tier, seed):
+    good = {"version": 1, "signer": {"hash": "aa" * 32, "iteration": 3},
+            "signatures": ["3006020101020101"]}
+    docs = []
+
+    def add(name, doc, raw=None):
+        docs.append({"name": name, "text": raw if raw is not None else json.dumps(doc)})
+    add("not-json", None, "{")
+    add("empty", None, "")
+    add("top-list", [good])
+    add("top-null", None)
+    add("top-string", "x")
+    for k in ("version", "signer", "signatures"):
+        add("missing-" + k, {a: b for a, b in good.items() if a != k})
+    for v in (0, 2, "1", None, 1.5):
+        add("version-%r" % (v,), dict(good, version=v))
+    for sg in (None, [], "x", {}, {"hash": "aa" * 32}, {"iteration": 3},
+               {"hash": "aa" * 31, "iteration": 3}, {"hash": "zz" * 32, "iteration": 3},
+               {"hash": "aa" * 32, "iteration": -1}, {"hash": "aa" * 32, "iteration": 65536},
+               {"hash": "aa" * 32, "iteration": "x"}, {"hash": 5, "iteration": 3}):
+        add("signer-%s" % json.dumps(sg)[:30], dict(good, signer=sg))
+    for sigs in (None, "3006020101020101", {}, [None], [5], ["zz"], ["30"], [["aa"]],
+                 ["3006020101020101", ""], ["", "3006020101020101"]):
+        add("signatures-%s" % json.dumps(sigs)[:30], dict(good, signatures=sigs))
+    return docs
+
+
+def run_malformed_file(c):
+    """A file that is not an authorization is refused when loaded, and the authorize command
+    given such a file sends the device no authorization data."""
+    d = workdir()
+    path = os.path.join(d, "auth.json")
+    with open(path, "w") as f:
+        f.write(c["text"])
+    try:
+        loaded = SignerAuthorization.from_jsonfile(path)
+    except Exception:     # noqa - refused
+        loaded = None
+    if loaded is not None:
+        raise Violation("malformed-file-accepted", "%s: %s loads as %r" % (
+            c["name"], c["text"][:200], loaded.to_dict()))
+    w = mw.default_world()
+    w.mode = BOOT
+    w.unlocked = False
+    w.pin = b"abcd1234"
+    seen = []
+
+    def h_auth(world, dd, a):
+        seen.append(bytes(dd))
+        return bytes([0x80, 0x51, dd[0], 0x02])
+    w.extra_handlers[0x51] = h_auth
+    mw.install(w)
+    Platform.set(Platform.LEDGER)
+    opts = types.SimpleNamespace(signer_authorization_file_path=path, pin="abcd1234",
+                                 any_pin=False, verbose=False, no_exec=False)
+    exc = None
+    try:
+        with contextlib.redirect_stdout(io.StringIO()):
+            auths.do_authorize_signer(opts)
+    except Exception as e:   # noqa
+        exc = e
+    mw.check_sim(w)
+    if seen:
+        raise Violation("authorization-data-sent-from-malformed-file", "%s: device got %r" % (
+            c["name"], [x.hex() for x in seen][:3]))
+    if exc is None:
+        raise Violation("authorize-succeeded-with-malformed-file", c["name"])
+    return Out(["malformed-file"], True)
+
+
 def stages(tier):
-    return [HypStage("authorizations", lambda t: cases(t), run_case,
+    from vlib.runner import EnumStage
+    return [EnumStage("malformed-files", malformed_files, run_malformed_file,
+                      exhaustive={"quick": True, "thorough": True},
+                      budget_s={"quick": 60, "thorough": 60}),
+            HypStage("authorizations", lambda t: cases(t), run_case,
                      {"quick": 120, "thorough": 4000}, budget_s={"quick": 100, "thorough": 1200})]
